@@ -84,6 +84,9 @@ def run(db, rep, tier):
     r3(db, rep)
     r4(db, rep)
     r5(db, rep)
+    rep.rule("R6-cacher-extent", "the caching wrapper copies exactly the cached serialization: every raw copy into the output buffer takes its "
+                                 "byte count from the size() of the container it copies from", 3)
+    r6(db, rep)
     rep.explanation = ("E-STREAMFX summarises each serialiser and each size function as a symbolic form (constants, opaque size atoms, "
                        "guarded parts, sums over containers) and compares them on the finite partition of the conditions they test: "
                        "written <= counted for header and trailer of all concrete classes (R1); cached sizes follow their lists (R2); "
@@ -945,3 +948,54 @@ def bits_always_throw(n):
     while n["k"] in ("ExprWithCleanups", "ParenExpr") and n.get("c"):
         n = n["c"][0]
     return n["k"] == "CXXThrowExpr"
+
+
+CACHER_TU = """#include <tins/tins.h>
+#include <tins/pdu_cacher.h>
+template void Tins::PDUCacher<Tins::IP>::write_serialization(uint8_t*, uint32_t);
+template void Tins::PDUCacher<Tins::RawPDU>::write_serialization(uint8_t*, uint32_t);
+template void Tins::PDUCacher<Tins::EthernetII>::write_serialization(uint8_t*, uint32_t);
+"""
+
+
+def r6(db, rep):
+    """PDUCacher<T>::write_serialization: header_size() is the cached layer's size, the bytes copied must be the cached
+    serialization and nothing else.  total_sz also counts the layers stacked on the cacher, so a copy extent that is not
+    the source container's own size() reads past the cache and overwrites the inner layers' bytes."""
+    d2 = facts.extract_standalone(db, "c02cacher", CACHER_TU)
+    n = 0
+    for fid, f in sorted(d2.functions.items()):
+        if not (f.get("rec") or "").startswith("Tins::PDUCacher<") or not f["qual"].endswith("::write_serialization") or not f.get("body"):
+            continue
+        pb = f["params"][0]["var"]
+        short = f["rec"].replace("Tins::", "")
+        copies = [x for x in facts.fn_nodes(f) if x["k"] == "CallExpr" and x.get("cname") in ("memcpy", "memmove", "copy", "copy_n") and
+                  any(y["k"] == "DeclRefExpr" and y.get("var") == pb for y in facts.walk(x))]
+        if not copies:
+            rep.analysis_broken("%s::write_serialization: no raw copy into the buffer found" % short)
+            continue
+        for i, x in enumerate(copies):
+            n += 1
+            key = "%s::write_serialization:copy#%d" % (short, i + 1)
+            args = x["c"][1:]
+            if x["cname"] in ("memcpy", "memmove") and len(args) == 3:
+                srcm = [y.get("member") for y in facts.walk(args[1]) if y["k"] == "MemberExpr" and y.get("isfield")]
+                ln = facts.strip_all(args[2])
+                lnm = None
+                if ln["k"] == "CXXMemberCallExpr" and ln.get("cname") == "size" and ln["c"][0].get("c"):
+                    o = facts.strip_all(ln["c"][0]["c"][0])
+                    if o["k"] == "MemberExpr" and o.get("isfield"):
+                        lnm = o["member"]
+                dst0 = facts.strip_all(args[0])
+                at_start = dst0["k"] == "DeclRefExpr" and dst0.get("var") == pb
+                if srcm and lnm in srcm and at_start:
+                    rep.ok("R6-cacher-extent", key, facts.loc(f, x), "copies %s.size() bytes of %s to the start of the layer's region" % (lnm, lnm))
+                else:
+                    rep.violation("R6-cacher-extent", key, facts.loc(f, x),
+                                  "the copy takes `%s` bytes from `%s`: not the size of the container copied from - with layers stacked on the "
+                                  "cacher this reads past the cached serialization and overwrites the bytes of the layers above"
+                                  % (facts.expr_str(args[2]), facts.expr_str(args[1])[:60]))
+            else:
+                rep.analysis_broken("%s: copy form %s not recognised" % (key, x["cname"]))
+    if n < 3:
+        rep.analysis_broken("PDUCacher<T>::write_serialization instantiations not found (%d)" % n)
